@@ -29,8 +29,10 @@ func (s *shape) String() string {
 	return strings.ToLower(s.Cat)
 }
 
-func (s *shape) isStructLike() bool { return s.Cat == "Struct" || s.Cat == "Union" || s.Cat == "Exception" }
-func (s *shape) isContainer() bool  { return s.Cat == "Map" || s.Cat == "List" || s.Cat == "Set" }
+func (s *shape) isStructLike() bool {
+	return s.Cat == "Struct" || s.Cat == "Union" || s.Cat == "Exception"
+}
+func (s *shape) isContainer() bool { return s.Cat == "Map" || s.Cat == "List" || s.Cat == "Set" }
 
 func shapeOf(w *tmpl.World, t *tmpl.Obj) *shape {
 	if t == nil {
